@@ -106,6 +106,8 @@ def run_case(part, case, stats, known):
             labels.add('ambient:-' + 'v' * amb['verbosity'])
         if amb['tz']:
             labels.add('ambient:process-TZ-set')
+        if amb.get('path'):
+            labels.add('ambient:odd-directory-name')
         if sys.flags.optimize:
             labels.add('interpreter:-O')
     except Reject as rej:
@@ -191,7 +193,10 @@ def optimized_shard(args):
         proc = subprocess.run(
             [sys.executable, '-O', '-m', 'vfw.runner', pid, '--shard-json',
              json.dumps(list(args))],
-            capture_output=True, text=True, cwd=VERIF_DIR, check=False)
+            capture_output=True, text=True, cwd=VERIF_DIR, check=False,
+            # (string hashing, hence the order of sets and dicts of strings,
+            # differs from the main run; fixed by the seed)
+            env=dict(os.environ, PYTHONHASHSEED=str(1 + args[3] % 4000)))
         lines = [l for l in proc.stdout.splitlines()
                  if l.startswith('SHARD-RESULT ')]
         if not lines:
